@@ -16,12 +16,13 @@ not found or when the two routes of (b) disagree.
 """
 import os, re, subprocess, sys
 
-REPO = os.environ.get("C20_REPO", "/repo")          # override only for what-if runs on a scratch worktree
+# VERIF_REPO / VERIF_TARGET: only set by tools/mutest.py (seeded changes in a scratch worktree)
+REPO = os.environ.get("C20_REPO", os.environ.get("VERIF_REPO", "/repo"))
 CORE = os.path.join(REPO, "src/core/src")
 HDR = os.path.join(REPO, "include/sourmash.h")
 ROOT = os.path.dirname(os.path.dirname(os.path.abspath(__file__)))
 OUT = os.environ.get("C20_OUT", os.path.join(ROOT, "lean/Sourmash/Generated/C20.lean"))
-BIN = os.path.join(ROOT, ".cache/target/debug/c20")
+BIN = os.path.join(os.environ.get("VERIF_TARGET", os.path.join(ROOT, ".cache/target")), "debug/c20")
 
 
 def die(msg):
